@@ -10,6 +10,7 @@ import (
 	"encoding/json"
 	"fmt"
 	"io"
+	"strconv"
 	"strings"
 	"sync"
 
@@ -291,6 +292,21 @@ func cleanCase(rng *Rng, n int, typ int, xy bool, nids int, interleave int) {
 	var lines []string
 	func() {
 		defer func() { recover() }()
+		if n%5 == 2 {
+			// the image travels in ONE message behind another state with a DIFFERENT image (other length,
+			// format, size) for another target; that decoy's lines are taken out again - what is left must
+			// be the clean run of this image (seed C05-9: encoded parts cached per message)
+			const decoyID = 3999999999
+			decoy := &rwp.HWCState{HWCIDs: []uint32{decoyID}, HWCGfx: &rwp.HWCGfx{ImageType: rwp.HWCGfx_ImageTypeE((typ + 1) % 3), W: 16, H: 3, ImageData: rng.Bytes(1 + (n*7)%400)}}
+			all := rwl.InboundMessagesToRawPanelASCIIstrings([]*rwp.InboundMessage{{States: []*rwp.HWCState{decoy, st}}})
+			for _, l := range all {
+				if !strings.Contains(l, "#"+strconv.Itoa(decoyID)+"=") {
+					lines = append(lines, l)
+				}
+			}
+			c05stats["clean run behind another image in the same message"] += 3
+			return
+		}
 		lines = rwl.InboundMessagesToRawPanelASCIIstrings([]*rwp.InboundMessage{{States: []*rwp.HWCState{st}}})
 	}()
 	if interleave == 2 { // unrelated lines inserted anywhere
@@ -309,6 +325,24 @@ func cleanCase(rng *Rng, n int, typ int, xy bool, nids int, interleave int) {
 	}
 	for _, d := range discs {
 		emit(L(Sym("clean"), Sym(d), L(typ, g.W, g.H, g.XYoffset, g.X, g.Y, g.ImageData), idsx, linesSx(lines), observe(d, lines)))
+	}
+	// the same clean run after an ABANDONED transfer (first parts only) for another target, the same
+	// target in another format, or a header-less part 0 (seed C05-10: a reader that ignores a part 0
+	// for another target while a transfer is open stays parked on the abandoned one)
+	if interleave != 2 && n > 0 && n%7 == 3 {
+		other := uint32(4000000123)
+		prefixes := [][]string{
+			{fmt.Sprintf("HWCg#%d=0/2,64x48:QUFB", other), fmt.Sprintf("HWCg#%d=1:Q0ND", other)},
+			{fmt.Sprintf("HWCgRGB#%d=0/1,8x8:QUFB", other)},
+			{fmt.Sprintf("HWCg#%d=0:QUFB", other), fmt.Sprintf("HWCg#%d=1:QUFB", other)},
+			{fmt.Sprintf("HWCgGray#%d,%d=0/3,8x8,1,1:QUFB", ids[0], other)},
+		}
+		pre := prefixes[(n/7)%len(prefixes)]
+		all := append(append([]string{}, pre...), lines...)
+		for _, d := range discs {
+			emit(L(Sym("cleanp"), Sym(d), L(typ, g.W, g.H, g.XYoffset, g.X, g.Y, g.ImageData), idsx, linesSx(pre), linesSx(lines), observe(d, all)))
+		}
+		c05stats["clean after an abandoned transfer"] += 3
 	}
 	c05stats[fmt.Sprintf("clean len%%170=%s interleave=%d", map[bool]string{true: "0", false: "other"}[n%170 == 0], interleave)] += 3
 }
@@ -599,6 +633,12 @@ func replayC05(line string) {
 		out.WriteString(histCase(n.Kids[1].Atom, getLines(n.Kids[2])))
 	case "hist3":
 		out.WriteString(hist3Case(getLines(n.Kids[1])))
+	case "cleanp":
+		if len(n.Kids) >= 7 {
+			pre, lines := getLines(n.Kids[5]), getLines(n.Kids[6])
+			all := append(append([]string{}, pre...), lines...)
+			emit(L(Sym("cleanp"), Sym(n.Kids[1].Atom), nodeSx(n.Kids[2]), nodeSx(n.Kids[3]), linesSx(pre), linesSx(lines), observe(n.Kids[1].Atom, all)))
+		}
 	case "hist3c":
 		if len(n.Kids) >= 3 {
 			out.WriteString(hist3cCase(getLines(n.Kids[1]), getLines(n.Kids[2])))
@@ -656,3 +696,17 @@ func replayC05(line string) {
 	}
 }
 
+// nodeSx turns a parsed node back into an s-expression value (atoms verbatim)
+func nodeSx(n *Node) Sx {
+	if n == nil {
+		return L()
+	}
+	if !n.IsList {
+		return Sym(n.Atom)
+	}
+	l := []Sx{}
+	for _, k := range n.Kids {
+		l = append(l, nodeSx(k))
+	}
+	return l
+}
